@@ -62,6 +62,9 @@ theorem mem_of_get {α : Type} {l : List α} {i : Nat} {x : α} (h : l[i]? = som
 theorem upd_other {α : Type} (f : Nat → α) (i j : Nat) (v : α) (h : j ≠ i) : upd f i v j = f j := by
   simp [upd, h]
 
+@[simp] theorem b2n_true : b2n true = 1 := rfl
+@[simp] theorem b2n_false : b2n false = 0 := rfl
+
 -- ---------------------------------------------------------------- `decided`
 
 theorem decided_pc (q : Req) (e : ErrKind) (c : Bool) :
@@ -293,23 +296,27 @@ theorem inv_noUpstream {s s' : State} {r} (hi : Inv s) (hs : stepNoUpstream s r 
         have h1 := hi.inflight_eq o
         have h2 := total_set (inFlightW o) s.reqs r (q.decided q.keepErr (canceled s q.cfg)) q hq
         simp only [sendingCount] at h1 ⊢
+        simp only [decided_inFlightW] at h2
         simp [hpc, inFlightW, Pc.inFlightOn, b2n] at h2 ⊢; omega
       · intro o c
         have h1 := hi.counted_eq o c
         have h2 := total_set (spawnerW o c) s.reqs r (q.decided q.keepErr (canceled s q.cfg)) q hq
         simp only [countedNotSpawned, spawners] at h1 ⊢
+        simp only [decided_spawnerW] at h2
         simp [hpc, spawnerW, Pc.spawningOn, b2n] at h2 ⊢; omega
       · intro q' hq'
         rcases mem_set_cases hq' with hm | hm
         · exact hi.req_ok q' hm
         · subst hm
           have := hi.req_ok q (mem_of_get hq)
+          simp only [decided_incs, decided_hist, decided_inFlight]
           simp [hpc, Pc.inFlight, b2n] at this ⊢; omega
       · intro o
         have h1 := hi.attempts_eq o
         have h2 := total_set (aboutToCountW o) s.reqs r (q.decided q.keepErr (canceled s q.cfg)) q hq
         have h3 := total_set (failedAttemptsW o) s.reqs r (q.decided q.keepErr (canceled s q.cfg)) q hq
         simp only [countedAttempts, aboutToCount, failedAttempts] at h1 ⊢
+        simp only [decided_aboutToCountW, decided_failedAttemptsW] at h2 h3
         simp [hpc, aboutToCountW, Pc.owesCountOn, b2n] at h2 h3 ⊢; omega
     all_goals simp at hs
   next => simp at hs
@@ -477,23 +484,27 @@ theorem inv_after {s s' : State} {r} (hi : Inv s) (hs : stepAfter s r = some s')
             have h1 := hi.inflight_eq o
             have h2 := total_set (inFlightW o) s.reqs r (q.decided out.errKind (canceled s q.cfg)) q hq
             simp only [sendingCount] at h1 ⊢
+            simp only [decided_inFlightW] at h2
             simp [hpc, inFlightW, Pc.inFlightOn, b2n] at h2 ⊢; omega
           · intro o c
             have h1 := hi.counted_eq o c
             have h2 := total_set (spawnerW o c) s.reqs r (q.decided out.errKind (canceled s q.cfg)) q hq
             simp only [countedNotSpawned, spawners] at h1 ⊢
+            simp only [decided_spawnerW] at h2
             simp [hpc, spawnerW, Pc.spawningOn, b2n] at h2 ⊢; omega
           · intro q' hq'
             rcases mem_set_cases hq' with hm | hm
             · exact hi.req_ok q' hm
             · subst hm
               have := hi.req_ok q (mem_of_get hq)
+              simp only [decided_incs, decided_hist, decided_inFlight]
               simp [hpc, Pc.inFlight, b2n] at this ⊢; omega
           · intro o
             have h1 := hi.attempts_eq o
             have h2 := total_set (aboutToCountW o) s.reqs r (q.decided out.errKind (canceled s q.cfg)) q hq
             have h3 := total_set (failedAttemptsW o) s.reqs r (q.decided out.errKind (canceled s q.cfg)) q hq
             simp only [countedAttempts, aboutToCount, failedAttempts] at h1 ⊢
+            simp only [decided_aboutToCountW, decided_failedAttemptsW] at h2 h3
             simp [hpc, hcnt, aboutToCountW, Pc.owesCountOn, b2n] at h2 h3 ⊢; omega
       next hk =>
         -- success / cancel / handler error / panic: return without counting
